@@ -237,6 +237,59 @@ def shard_compile(col, shard_i, n):
             check_failure(col, out[1], text, 'compile', {'grammar': text})
 
 
+# ---- a reference to an undefined rule, in every syntactic position, must be reported when the grammar is compiled ----
+UNDEF_POSITIONS = {
+    'sequence-element': "start = 'a' missing 'b' ;",
+    'first-element': "start = missing 'b' ;",
+    'choice-option': "start = 'a' | missing ;",
+    'optional': "start = 'a' [missing] ;",
+    'closure': "start = {missing} ;",
+    'positive-closure': "start = {missing}+ ;",
+    'join-element': "start = ','%{missing} ;",
+    'join-separator': "start = missing%{'a'} ;",
+    'positive-join-separator': "start = missing%{'a'}+ ;",
+    'gather-separator': "start = missing.{'a'} ;",
+    'positive-gather-separator': "start = missing.{'a'}+ ;",
+    'left-join-separator': "start = missing<{'a'}+ ;",
+    'right-join-separator': "start = missing>{'a'}+ ;",
+    'lookahead': "start = &missing 'a' ;",
+    'negative-lookahead': "start = !missing 'a' ;",
+    'named': "start = n:missing ;",
+    'named-list': "start = n+:missing ;",
+    'override': "start = 'a' @:missing ;",
+    'group': "start = ('a' missing) ;",
+    'skip-group': "start = (?: missing) 'a' ;",
+    'skip-to': "start = ->missing ;",
+    'second-rule': "start = r ;\nr = 'a' missing ;",
+    'rule-include': "start = >missing 'a' ;",
+    'based-rule': "start = b ;\nb < missing = 'a' ;",
+    'nested': "start = {['a' | (&'b' ','%{n:missing})]} ;",
+}
+
+
+def shard_undefined(col, shard_i):
+    import tatsu
+    from tatsu.exceptions import GrammarError, TatSuException
+    for where, g in UNDEF_POSITIONS.items():
+        col.case(['undefined-rule', where], nontrivial=True)
+        col.count('undefined.positions')
+        try:
+            m = tatsu.compile(g, name='U')
+            outcome = 'compiles'
+        except GrammarError:
+            outcome = 'GrammarError'
+        except TatSuException as e:
+            outcome = 'tatsu:' + type(e).__name__
+        except Exception as e:  # noqa
+            outcome = 'foreign:' + type(e).__name__
+        # GrammarError is the documented report; another TatSu parse error of the grammar text (rule include / based rule
+        # are resolved while the text is read) is a report too
+        if outcome == 'compiles' or outcome.startswith('foreign:'):
+            col.violation(f'oracle:undefined-rule-not-reported:{where}:{outcome}',
+                          f'a grammar that refers to an undefined rule ({where}) is not rejected by tatsu.compile: {outcome}',
+                          {'oracle': 'undefined rule references are reported at compile time', 'grammar': g, 'outcome': outcome})
+
+
 def main():
     chk = Check(PID)
     chk.rule = ('M1: the five character-level matchers on ALL strings over {1 _ + - . e a superscript-2 arabic-3 space} up to length 4 (quick) / 5 '
@@ -254,10 +307,12 @@ def main():
             vlib.run_sharded(chk, shard_matchers, 14, extra=(14, 4))
             vlib.run_sharded(chk, shard_engine, 14, extra=(14, 8))
             vlib.run_sharded(chk, shard_compile, 14, extra=(60,))
+            vlib.run_sharded(chk, shard_undefined, 1, procs=1)
         else:
             vlib.run_sharded(chk, shard_matchers, 28, extra=(28, 5))
             vlib.run_sharded(chk, shard_engine, 28, extra=(40, 10))
             vlib.run_sharded(chk, shard_compile, 28, extra=(400,))
+            vlib.run_sharded(chk, shard_undefined, 1, procs=1)
         chk.obligation('M1: matchers vs Matchers.v (exhaustive small scope)', 'correspondence',
                        not any(v['signature'].startswith('M1') for v in chk.violations))
         chk.obligation('no foreign exception / hang / unbounded recursion; failures at valid positions (implementation only)', 'oracle',
